@@ -25,7 +25,12 @@ def not_observer_stack(rng, vocab, dirs):
     names = [d[-1] for d in dirs if d] or vocab
     nm = walkgen.esc(rng.choice(names))
     other = walkgen.esc(rng.choice(vocab))
-    shape = rng.choice(["both", "both", "both-prefixed", "exh-only", "mixed"])
+    shape = rng.choice(["both", "both", "both-prefixed", "exh-only", "mixed", "one-expression", "one-expression"])
+    if shape == "one-expression":
+        # ONE glob expression with a top-level alternation mixing an exhaustive and another alternative
+        alts = ["**/" + nm + "/**", rng.choice(["**/*.md", "**/" + other, "*" + nm[-1:]])]
+        rng.shuffle(alts)
+        return rng.choice(["n:", "nc:"]) + hx("{" + ",".join(alts) + "}") + ";f:", "No", []
     if shape == "both":
         pats = ["**/" + nm, "**/" + nm + "/**"]
     elif shape == "both-prefixed":
@@ -223,7 +228,43 @@ def run(rep, tier, seed, replay):
         rep.evaluations += len(nobs)
         walklib.correspondence_step(rep, nobs, "negation then observer")
         h = common.harness()
-        allp = sorted({x for c in nobs for x in c.stack.split(";")[0].split(":", 1)[1].split("+")})
+        def top_alternatives(text):
+            """the alternatives of an expression that is ONE top-level alternation, else the expression itself"""
+            if not (text.startswith("{") and text.endswith("}")):
+                return [text]
+            depth, cur, out, esc_next = 0, "", [], False
+            for i, ch in enumerate(text):
+                if esc_next:
+                    cur += ch
+                    esc_next = False
+                    continue
+                if ch == chr(92):
+                    esc_next = True
+                    cur += ch
+                    continue
+                if ch in "{<[":
+                    depth += 1
+                    if depth == 1 and i == 0:
+                        continue
+                elif ch in "}>]":
+                    depth -= 1
+                    if depth == 0:
+                        if i != len(text) - 1:
+                            return [text]          # the first brace closes early: not one alternation
+                        out.append(cur)
+                        return out
+                elif ch == "," and depth == 1:
+                    out.append(cur)
+                    cur = ""
+                    continue
+                cur += ch
+            return [text]
+        # a negation is split into its top-level alternatives (into_alternatives): each is judged on its own
+        expand = {}
+        for c in nobs:
+            for x in c.stack.split(";")[0].split(":", 1)[1].split("+"):
+                expand[x] = [hx(a) for a in top_alternatives(unhx(x))]
+        allp = sorted({a for v in expand.values() for a in v})
         exh = {}
         from props import lib as _lib
         for x, line in zip(allp, h.ask(["B " + x for x in allp])):
@@ -236,7 +277,7 @@ def run(rep, tier, seed, replay):
             root = unhx(c.f["root"])
             sub = base[len(root):].strip("/")
             dirs_ = [(pth, k) for pth, k, _d in walklib.rec_paths(c.f.get("rec", "-"), root) if k == "d" and (sub == "" or pth.startswith(root + "/" + sub + "/"))]
-            always = [x for x in c.stack.split(";")[0].split(":", 1)[1].split("+") if exh.get(x) == "always"]
+            always = [a for x in c.stack.split(";")[0].split(":", 1)[1].split("+") for a in expand[x] if exh.get(a) == "always"]
             for pth, _k in dirs_:
                 rel = pth[len(base) + 1:]
                 for x in always:
